@@ -343,6 +343,8 @@ class _stream_init:
 
     def requires(e):
         o = e.options
+        if o.flow is None:          # a concrete options object without a flow
+            return known_logical(o.logical_type)
         return And(known_logical(o.logical_type), Implies(Not(is_none(o.flow)), known_logical(opt_val(o.flow).logical_type)))
 
     def on_raise(e): return {"the-half-built-stream-is-discarded": True}
@@ -352,7 +354,7 @@ class _stream_init:
     def lists(e):
         o = e.options
         supplied = Not(is_none(o.flow))
-        cases = [dict(label="flow-supplied", when=supplied, set={}, alias={"self.flow": opt_val(o.flow)})]
+        cases = [] if o.flow is None else [dict(label="flow-supplied", when=supplied, set={}, alias={"self.flow": opt_val(o.flow)})]
         # a call site continues with a new flow of each class the inference can choose (the body is checked by `ensures`)
         for name, cond in expected_flow_class(e.self.cls.name, o.logical_type, o.params.delimited).items():
             if cond is not False:
@@ -364,6 +366,8 @@ class _stream_init:
         o = e.options
         supplied = Not(is_none(o.flow))
         inferred = z3.If(o.logical_type != 0, o.logical_type, _default_logical(e.self.cls.name, o.params.delimited))
+        if o.flow is None:
+            return inferred
         return z3.If(supplied, opt_val(o.flow).logical_type, inferred)
 
     def raises(e):
